@@ -1,5 +1,5 @@
 import Orca.Lemmas.StackFull
-import Orca.Model.Sem
+import Orca.Model.SemTree
 import Orca.Lemmas.SemBranch
 /-!
 **From the tree model to the stack machine.** M4 (`Orca.Sem`) states what the lowering does on *structured* programs (`lower`, `lowerF`)
@@ -13,28 +13,20 @@ namespace Orca.Bridge
 open Orca.Lower (Tok Kind tConst tLocalGet tLocalSet tIf tElse tEnd tWrapper)
 open Orca.Sem (Instr Ann SA OpK probes flagChain pendingI pendingL setFlag)
 
-/-- a reporting probe as tokens -/
-def probeToks (p : Nat) : List Tok := [tConst p, "call:log"]
-def P (ps : List Nat) : List Tok := ps.flatMap probeToks
+/-- probes as tokens, as the driver writes them (`i32.const p; call <log>`) -/
+def P (ps : List Nat) : List Tok := SemTree.probeToks ps
 
-def tokOf : OpK → Tok
-  | .const v => tConst v
-  | .localGet i => tLocalGet i
-  | .localSet i => tLocalSet i
-  | .localTee i => s!"local.tee:{i}"
-  | .globalGet i => s!"global.get:{i}"
-  | .globalSet i => s!"global.set:{i}"
-  | .load o => s!"i32.load:{o}"
-  | .store o => s!"i32.store:{o}"
-  | .call f => s!"call:{f}"
-  | .other t => t
-  | .nop => "nop" | .drop => "drop" | .add => "i32.add" | .sub => "i32.sub" | .mul => "i32.mul" | .and_ => "i32.and" | .or_ => "i32.or"
-  | .xor_ => "i32.xor" | .eq => "i32.eq" | .ne => "i32.ne" | .ltU => "i32.lt_u" | .gtU => "i32.gt_u" | .divU => "i32.div_u"
-  | .remU => "i32.rem_u" | .eqz => "i32.eqz" | .select => "select"
+/-- the token of a decoded instruction: the driver's -/
+def tokOf (k : OpK) : Tok := SemTree.showOp k
 
 def brTok (n : Nat) : Tok := s!"br:{n}"
 def brIfTok (n : Nat) : Tok := s!"br_if:{n}"
-def brTableTok (ts : List Nat) (d : Nat) : Tok := s!"br_table:{ts}:{d}"
+def brTableTok (ts : List Nat) (d : Nat) : Tok := s!"br_table:{".".intercalate (ts.map toString)}/{d}"
+
+theorem showOp_const0 : SemTree.showOp (.const 0) = tConst 0 := by simp [SemTree.showOp, tConst]
+theorem showOp_const1 : SemTree.showOp (.const 1) = tConst 1 := by simp [SemTree.showOp, tConst]
+theorem showOp_localGet (f : Nat) : SemTree.showOp (.localGet f) = tLocalGet f := rfl
+theorem showOp_localSet (f : Nat) : SemTree.showOp (.localSet f) = tLocalSet f := rfl
 
 def mk (t : Tok) (k : Kind) : Lower.Instr := { tok := t, kind := k }
 
@@ -46,7 +38,7 @@ mutual
 /-- an annotated structured instruction as the flat instructions (with instrumentation lists) the API would have built -/
 def flatI : Instr → List Lower.Instr
   | .op b a k => [{ mk (tokOf k) .other with before := P b, after := P a }]
-  | .probe id => [mk (tConst id) .other, mk "call:log" .other]
+  | .probe id => [mk (tConst id) .other, mk s!"call:{SemTree.logFn}" .other]
   | .block b ann _ tk body =>
     { mk tk .block with before := P b, blockEntry := P ann.entry, blockExit := P ann.exit, semAfter := P ann.after }
       :: (flatL body ++ [mk tEnd .end_])
@@ -70,27 +62,13 @@ def flatL : List Instr → List Lower.Instr
   | i :: is => flatI i ++ flatL is
 end
 
-mutual
-/-- the tokens of a structured program (as emitted: `before` probes, the instruction, `after` probes; annotations are not code) -/
-def toksI : Instr → List Tok
-  | .op b a k => P b ++ [tokOf k] ++ P a
-  | .probe id => probeToks id
-  | .block b _ _ tk body => P b ++ tk :: (toksL body ++ [tEnd])
-  | .loop b _ tk body => P b ++ tk :: (toksL body ++ [tEnd])
-  | .ite b _ _ _ tk t e hasElse => P b ++ tk :: (toksL t ++ (if hasElse then tElse :: toksL e else []) ++ [tEnd])
-  | .br b a _ n => P b ++ [brTok n] ++ P a
-  | .brIf b a _ n => P b ++ [brIfTok n] ++ P a
-  | .brTable b a _ ts d => P b ++ [brTableTok ts d] ++ P a
-  | .ret b a => P b ++ ["return"] ++ P a
-  | .unreachable b a => P b ++ ["unreachable"] ++ P a
-def toksL : List Instr → List Tok
-  | [] => []
-  | i :: is => toksI i ++ toksL is
-end
+/-- the tokens of a structured program: the driver's `flatten` -/
+abbrev toksI := SemTree.flattenI
+abbrev toksL := SemTree.flattenL
 
 theorem toksL_append : ∀ (a b : List Instr), toksL (a ++ b) = toksL a ++ toksL b
   | [], b => rfl
-  | i :: a, b => by simp [toksL, toksL_append a b]
+  | i :: a, b => by simp [SemTree.flattenL, toksL_append a b]
 
 theorem flatL_append : ∀ (a b : List Instr), flatL (a ++ b) = flatL a ++ flatL b
   | [], b => rfl
@@ -100,11 +78,11 @@ theorem toksL_probes : ∀ ps : List Nat, toksL (probes ps) = P ps
   | [] => rfl
   | p :: ps => by
     have := toksL_probes ps
-    simp only [probes, List.map_cons, toksL, toksI] at this ⊢
-    rw [this]; simp [P]
+    simp only [probes, List.map_cons, toksL, SemTree.flattenL, SemTree.flattenI] at this ⊢
+    rw [this]; simp [P, SemTree.probeToks]
 
 theorem P_nil : P [] = [] := rfl
-theorem P_append (a b : List Nat) : P (a ++ b) = P a ++ P b := by simp [P]
+theorem P_append (a b : List Nat) : P (a ++ b) = P a ++ P b := by simp [P, SemTree.probeToks]
 
 
 open Orca.Lower (Fr Del specRunF specStepF specStepA fnPre flaggedBranch parkAllF branchTargets chainToks endAfter)
@@ -174,9 +152,9 @@ theorem toksL_flagChain (sas : List SA) (h : sas.length ≤ 2) : toksL (flagChai
   match sas, h with
   | [], _ => rfl
   | [s], _ =>
-    simp [flagChain, toksL, toksI, chainToks, Lower.resolveBodies.chain, conv, tokOf, toksL_probes, P_nil, tIf, tEnd]
+    simp [flagChain, SemTree.flattenL, SemTree.flattenI, chainToks, Lower.resolveBodies.chain, conv, showOp_localGet, toksL_probes, P_nil, tIf, tEnd]
   | [s1, s2], _ =>
-    simp [flagChain, toksL, toksI, chainToks, Lower.resolveBodies.chain, conv, tokOf, toksL_probes, P_nil, tIf, tEnd, tElse]
+    simp [flagChain, SemTree.flattenL, SemTree.flattenI, chainToks, Lower.resolveBodies.chain, conv, showOp_localGet, toksL_probes, P_nil, tIf, tEnd, tElse]
   | _ :: _ :: _ :: _, h => simp at h
 
 theorem frAt_ext : ∀ (a b : List Fr), a.length = b.length → (∀ k, k < a.length → frAt a k = frAt b k) → a = b := by
@@ -352,13 +330,13 @@ theorem run_plain (last : Nat) (X : List Tok) (idx : Nat) (fr : List Fr) (nl : N
   cases specRunF last [] X (idx + 1) fr none nl rest <;> simp [Pre]
 
 
-theorem toksL_cons (i : Instr) (is : List Instr) : toksL (i :: is) = toksI i ++ toksL is := by simp [toksL]
+theorem toksL_cons (i : Instr) (is : List Instr) : toksL (i :: is) = toksI i ++ toksL is := by simp [SemTree.flattenL]
 
 
 theorem P_ne_nil (ps : List Nat) (h : ps.isEmpty = false) : P ps ≠ [] := by
   cases ps with
   | nil => simp at h
-  | cons p ps => simp [P, probeToks]
+  | cons p ps => simp [P, SemTree.probeToks]
 
 /-- a branch with a semantic-after probe -/
 theorem run_flagged (last : Nat) (X : List Tok) (idx : Nat) (fr : List Fr) (nl : Nat) (x : Lower.Instr) (rest : List Lower.Instr)
@@ -457,47 +435,47 @@ theorem run_flatI (last : Nat) (X : List Tok) (fx : List Nat) (hX : X = P fx) :
     rw [run_plain last X idx fr nl _ rest hfr (by omega) (by simp [specStepF, flaggedBranch, specStepA, mk, Kind.isBranching])]
     rw [fnPre_mid last X idx _ (by omega) (by simp [mk])]
     rw [parkFrom_noPending _ (fun d => by simp [pendingL, pendingI])]
-    simp [Sem.lower, toksL_append, toksL_cons, toksL, toksI, toksL_probes, P_nil, mk, flagsI]
+    simp [Sem.lower, toksL_append, toksL_cons, SemTree.flattenL, SemTree.flattenI, toksL_probes, P_nil, mk, flagsI, tokOf, brTok, brIfTok, brTableTok]
   | .probe id, idx, fr, nl, rest, _, _, _, hfr, hl => by
     simp only [flatI, List.length_cons, List.length_nil, List.cons_append, List.nil_append] at hl ⊢
     rw [run_plain last X idx fr nl _ _ hfr (by omega) (by simp [specStepF, flaggedBranch, specStepA, mk, Kind.isBranching])]
     rw [run_plain last X (idx + 1) fr nl _ _ hfr (by omega) (by simp [specStepF, flaggedBranch, specStepA, mk, Kind.isBranching])]
     rw [fnPre_mid last X idx _ (by omega) (by simp [mk]), fnPre_mid last X (idx + 1) _ (by omega) (by simp [mk])]
     rw [parkFrom_noPending _ (fun d => by simp [pendingL, pendingI]), Pre_Pre]
-    simp [Sem.lower, toksL, toksI, mk, flagsI, probeToks, Nat.add_assoc]
+    simp [Sem.lower, SemTree.flattenL, SemTree.flattenI, mk, flagsI, SemTree.probeToks, tConst, SemTree.logFn, Nat.add_assoc]
   | .ret b a, idx, fr, nl, rest, _, _, _, hfr, hl => by
     simp only [flatI, List.length_singleton, List.singleton_append] at hl ⊢
     rw [run_plain last X idx fr nl _ rest hfr (by omega) (by simp [specStepF, flaggedBranch, specStepA, mk, Kind.isBranching])]
     rw [fnPre_exit last X idx _ (by simp [mk])]
     rw [parkFrom_noPending _ (fun d => by simp [pendingL, pendingI])]
-    simp [Sem.lower, toksL_append, toksL_cons, toksL, toksI, toksL_probes, P_nil, mk, flagsI, hX]
+    simp [Sem.lower, toksL_append, toksL_cons, SemTree.flattenL, SemTree.flattenI, toksL_probes, P_nil, mk, flagsI, hX, tokOf]
   | .unreachable b a, idx, fr, nl, rest, _, _, _, hfr, hl => by
     simp only [flatI, List.length_singleton, List.singleton_append] at hl ⊢
     rw [run_plain last X idx fr nl _ rest hfr (by omega) (by simp [specStepF, flaggedBranch, specStepA, mk, Kind.isBranching])]
     rw [fnPre_exit last X idx _ (by simp [mk])]
     rw [parkFrom_noPending _ (fun d => by simp [pendingL, pendingI])]
-    simp [Sem.lower, toksL_append, toksL_cons, toksL, toksI, toksL_probes, P_nil, mk, flagsI, hX]
+    simp [Sem.lower, toksL_append, toksL_cons, SemTree.flattenL, SemTree.flattenI, toksL_probes, P_nil, mk, flagsI, hX, tokOf]
   | .br b a none n, idx, fr, nl, rest, _, _, _, hfr, hl => by
     simp only [flatI, List.length_singleton, List.singleton_append] at hl ⊢
     rw [run_plain last X idx fr nl _ rest hfr (by omega)
       (by simp [specStepF, flaggedBranch, specStepA, mk, Kind.isBranching, saToks])]
     rw [fnPre_mid last X idx _ (by omega) (by simp [mk])]
     rw [parkFrom_noPending _ (fun d => by simp [pendingL, pendingI])]
-    simp [Sem.lower, toksL_append, toksL_cons, toksL, toksI, toksL_probes, P_nil, mk, flagsI]
+    simp [Sem.lower, toksL_append, toksL_cons, SemTree.flattenL, SemTree.flattenI, toksL_probes, P_nil, mk, flagsI, tokOf, brTok, brIfTok, brTableTok]
   | .brIf b a none n, idx, fr, nl, rest, _, _, _, hfr, hl => by
     simp only [flatI, List.length_singleton, List.singleton_append] at hl ⊢
     rw [run_plain last X idx fr nl _ rest hfr (by omega)
       (by simp [specStepF, flaggedBranch, specStepA, mk, Kind.isBranching, saToks])]
     rw [fnPre_mid last X idx _ (by omega) (by simp [mk])]
     rw [parkFrom_noPending _ (fun d => by simp [pendingL, pendingI])]
-    simp [Sem.lower, toksL_append, toksL_cons, toksL, toksI, toksL_probes, P_nil, mk, flagsI]
+    simp [Sem.lower, toksL_append, toksL_cons, SemTree.flattenL, SemTree.flattenI, toksL_probes, P_nil, mk, flagsI, tokOf, brTok, brIfTok, brTableTok]
   | .brTable b a none ts d, idx, fr, nl, rest, _, _, _, hfr, hl => by
     simp only [flatI, List.length_singleton, List.singleton_append] at hl ⊢
     rw [run_plain last X idx fr nl _ rest hfr (by omega)
       (by simp [specStepF, flaggedBranch, specStepA, mk, Kind.isBranching, saToks])]
     rw [fnPre_mid last X idx _ (by omega) (by simp [mk])]
     rw [parkFrom_noPending _ (fun d => by simp [pendingL, pendingI])]
-    simp [Sem.lower, toksL_append, toksL_cons, toksL, toksI, toksL_probes, P_nil, mk, flagsI]
+    simp [Sem.lower, toksL_append, toksL_cons, SemTree.flattenL, SemTree.flattenI, toksL_probes, P_nil, mk, flagsI, tokOf, brTok, brIfTok, brTableTok]
   | .br b a (some s) n, idx, fr, nl, rest, hok, hd, hnum, hfr, hl => by
     simp only [flatI, List.length_singleton, List.singleton_append] at hl ⊢
     simp only [okI, Bool.not_eq_true'] at hok
@@ -508,7 +486,7 @@ theorem run_flatI (last : Nat) (X : List Tok) (fx : List Nat) (hX : X = P fx) :
     simp only [mk, saToks, branchTargets, hflag] at hp ⊢
     rw [← hflag] at hp ⊢
     rw [hp]
-    simp [Sem.lower, toksL_append, toksL_cons, toksL, toksI, toksL_probes, P_nil, flagsI, setFlag, tokOf]
+    simp [Sem.lower, toksL_append, toksL_cons, SemTree.flattenL, SemTree.flattenI, toksL_probes, P_nil, flagsI, setFlag, tokOf, showOp_const0, showOp_const1, showOp_localSet, showOp_localGet, brTok, brIfTok, brTableTok]
   | .brIf b a (some s) n, idx, fr, nl, rest, hok, hd, hnum, hfr, hl => by
     simp only [flatI, List.length_singleton, List.singleton_append] at hl ⊢
     simp only [okI, Bool.not_eq_true'] at hok
@@ -519,7 +497,7 @@ theorem run_flatI (last : Nat) (X : List Tok) (fx : List Nat) (hX : X = P fx) :
     simp only [mk, saToks, branchTargets, hflag] at hp ⊢
     rw [← hflag] at hp ⊢
     rw [hp]
-    simp [Sem.lower, toksL_append, toksL_cons, toksL, toksI, toksL_probes, P_nil, flagsI, setFlag, tokOf]
+    simp [Sem.lower, toksL_append, toksL_cons, SemTree.flattenL, SemTree.flattenI, toksL_probes, P_nil, flagsI, setFlag, tokOf, showOp_const0, showOp_const1, showOp_localSet, showOp_localGet, brTok, brIfTok, brTableTok]
   | .brTable b a (some s) ts d, idx, fr, nl, rest, hok, hd, hnum, hfr, hl => by
     simp only [flatI, List.length_singleton, List.singleton_append] at hl ⊢
     simp only [okI, Bool.not_eq_true'] at hok
@@ -533,7 +511,7 @@ theorem run_flatI (last : Nat) (X : List Tok) (fx : List Nat) (hX : X = P fx) :
     simp only [mk, saToks, branchTargets, hflag] at hp ⊢
     rw [← hflag] at hp ⊢
     rw [hp]
-    simp [Sem.lower, toksL_append, toksL_cons, toksL, toksI, toksL_probes, P_nil, flagsI, setFlag, tokOf]
+    simp [Sem.lower, toksL_append, toksL_cons, SemTree.flattenL, SemTree.flattenI, toksL_probes, P_nil, flagsI, setFlag, tokOf, showOp_const0, showOp_const1, showOp_localSet, showOp_localGet, brTok, brIfTok, brTableTok]
   | .block b ann ar tk body, idx, fr, nl, rest, hok, hd, hnum, hfr, hl => by
     simp only [okI, Bool.and_eq_true, decide_eq_true_eq] at hok
     simp only [depthOkI] at hd
@@ -549,7 +527,7 @@ theorem run_flatI (last : Nat) (X : List Tok) (fx : List Nat) (hX : X = P fx) :
     have hi : idx + 1 + (flatL body).length + 1 = idx + ((flatL body).length + 1 + 1) := by omega
     rw [hi]
     congr 1
-    simp [Sem.lower, toksL_append, toksL_cons, toksL, toksI, toksL_probes, P_nil, mk, endAfter, toksL_flagChain _ hok.1]
+    simp [Sem.lower, toksL_append, toksL_cons, SemTree.flattenL, SemTree.flattenI, toksL_probes, P_nil, mk, tEnd, tElse, endAfter, toksL_flagChain _ hok.1]
   | .loop b ann tk body, idx, fr, nl, rest, hok, hd, hnum, hfr, hl => by
     simp only [okI, Bool.and_eq_true, List.isEmpty_iff] at hok
     simp only [depthOkI] at hd
@@ -565,7 +543,7 @@ theorem run_flatI (last : Nat) (X : List Tok) (fx : List Nat) (hX : X = P fx) :
     have hi : idx + 1 + (flatL body).length + 1 = idx + ((flatL body).length + 1 + 1) := by omega
     rw [hi]
     congr 1
-    simp [Sem.lower, toksL_append, toksL_cons, toksL, toksI, toksL_probes, P_nil, mk, endAfter, hok.1, Lower.chainToks_nil]
+    simp [Sem.lower, toksL_append, toksL_cons, SemTree.flattenL, SemTree.flattenI, toksL_probes, P_nil, mk, tEnd, tElse, endAfter, hok.1, Lower.chainToks_nil]
   | .ite b annT annE ar tk t e hasElse, idx, fr, nl, rest, hok, hd, hnum, hfr, hl => by
     simp only [okI, Bool.and_eq_true, decide_eq_true_eq, Bool.or_eq_true] at hok
     obtain ⟨⟨⟨hlen2, hokt⟩, hoke⟩, helse⟩ := hok
@@ -602,7 +580,7 @@ theorem run_flatI (last : Nat) (X : List Tok) (fx : List Nat) (hX : X = P fx) :
       congr 1
       · have hch := toksL_flagChain _ hlen2
         rw [List.map_append] at hch
-        simp [Sem.lower, toksL_append, toksL_cons, toksL, toksI, toksL_probes, P_nil, P_append, mk, endAfter, hch]
+        simp [Sem.lower, toksL_append, toksL_cons, SemTree.flattenL, SemTree.flattenI, toksL_probes, P_nil, P_append, mk, tEnd, tElse, endAfter, hch]
       · simp [Nat.add_assoc]
     | false =>
       simp only [Bool.false_eq_true, false_or, Bool.and_eq_true, List.isEmpty_iff, beq_iff_eq] at helse
@@ -625,7 +603,7 @@ theorem run_flatI (last : Nat) (X : List Tok) (fx : List Nat) (hX : X = P fx) :
       congr 1
       · have hlen2' : (pendingL 0 t).length ≤ 2 := by simpa [pendingL] using hlen2
         have hch := toksL_flagChain _ hlen2'
-        simp [Sem.lower, Sem.lowerL, toksL_append, toksL_cons, toksL, toksI, toksL_probes, P_nil, mk, endAfter, pendingL, hch]
+        simp [Sem.lower, Sem.lowerL, toksL_append, toksL_cons, SemTree.flattenL, SemTree.flattenI, toksL_probes, P_nil, mk, tEnd, tElse, endAfter, pendingL, hch]
       · simp [Nat.add_assoc, flagsL]
 theorem run_flatL (last : Nat) (X : List Tok) (fx : List Nat) (hX : X = P fx) :
     ∀ (is : List Instr) (idx : Nat) (fr : List Fr) (nl : Nat) (rest : List Lower.Instr),
@@ -635,7 +613,7 @@ theorem run_flatL (last : Nat) (X : List Tok) (fx : List Nat) (hX : X = P fx) :
         = Pre (toksL (Sem.lowerL fx is))
             (specRunF last [] X (idx + (flatL is).length) (parkFrom is 0 fr) none (nl + (flagsL is).length) rest)
   | [], idx, fr, nl, rest, _, _, _, _, _ => by
-    simp [flatL, Sem.lowerL, toksL, parkFrom_nil_body, flagsL, Pre_nil]
+    simp [flatL, Sem.lowerL, SemTree.flattenL, parkFrom_nil_body, flagsL, Pre_nil]
   | i :: is, idx, fr, nl, rest, hok, hd, hnum, hfr, hl => by
     simp only [okL, Bool.and_eq_true] at hok
     simp only [depthOkL, Bool.and_eq_true] at hd
@@ -722,13 +700,13 @@ theorem run_flatF (F : Sem.Func) (nl : Nat) (hok : okL F.body = true) (hd : dept
   have hbody : (flatF F nl).body = flatL F.body ++ [endInstr F] := rfl
   rw [hx, hbody, hE]
   have hPe : ∀ ps : List Nat, (P ps).isEmpty = ps.isEmpty := by
-    intro ps; cases ps <;> simp [P, probeToks]
+    intro ps; cases ps <;> simp [P, SemTree.probeToks]
   have hgoal : ∀ E : List Tok, E = (if (P F.exit).isEmpty then P F.entry else P F.entry ++ [tWrapper]) →
       specRunF (flatL F.body).length E (P F.exit) 0 [{}] none nl (flatL F.body ++ [endInstr F])
         = Pre E (specRunF (flatL F.body).length [] (P F.exit) 0 [{}] none nl (flatL F.body ++ [endInstr F])) := by
     intro E hEq
     rcases hfirst with ⟨h1, h2⟩ | h
-    · have : E = [] := by rw [hEq, h1, h2]; simp [P]
+    · have : E = [] := by rw [hEq, h1, h2]; simp [P, SemTree.probeToks]
       subst this
       rw [Pre_nil]
     · rw [hbody] at h
@@ -747,7 +725,7 @@ theorem run_flatF (F : Sem.Func) (nl : Nat) (hok : okL F.body = true) (hd : dept
     have : F.exit = [] := List.isEmpty_iff.mp hex
     simp [this, toksL_append, toksL_probes, P_nil]
   | false =>
-    simp [toksL_append, toksL_cons, toksL_probes, toksI, toksL, P_nil, tWrapper]
+    simp [toksL_append, toksL_cons, toksL_probes, SemTree.flattenI, SemTree.flattenL, P_nil, tWrapper, tEnd]
 
 
 open Orca.Lower (PlainF)
@@ -836,5 +814,13 @@ theorem code_lowering_is_tree_lowering (F : Sem.Func) (nl : Nat) (hok : okL F.bo
   have := Lower.lower_eq_specF (flatF F nl) rfl hp _ _ (run_flatF F nl hok hd hnum hfirst)
   rw [this]
   simp [flatF]
+
+/-- the same with the right-hand side written as the sem driver writes it: `flattenF (lowerF F)` is what the driver prints as the model's
+    `out=` for a case inside the tree scope, `(lower f).1` what it prints outside — on the scope they are the same list -/
+theorem code_lowering_is_flattened_tree_lowering (F : Sem.Func) (nl : Nat) (hok : okL F.body = true) (hd : depthOkL 1 F.body = true)
+    (hnum : flagsL F.body = List.range' nl (flagsL F.body).length)
+    (hfirst : (F.entry = [] ∧ F.exit = []) ∨ ((flatF F nl).body.head?.map (·.before)) = some []) :
+    Lower.lower (flatF F nl) = (SemTree.flattenF (Sem.lowerF F), (flagsL F.body).length) :=
+  code_lowering_is_tree_lowering F nl hok hd hnum hfirst
 
 end Orca.Bridge
